@@ -3,6 +3,7 @@ package main
 import (
 	"flag"
 	"fmt"
+	"runtime"
 	"sync"
 	"time"
 
@@ -18,11 +19,16 @@ type simpleRun struct {
 	dead bool
 }
 
+// memPerRequest: no request of either server transfers more than about 2 MB
+const memPerRequest = 64 << 20
+
 func (s *simpleRun) guarded(desc string, f func()) bool {
 	if s.dead {
 		return false
 	}
 	done := make(chan string, 1)
+	var m0, m1 runtime.MemStats
+	runtime.ReadMemStats(&m0)
 	go func() {
 		defer func() {
 			if r := recover(); r != nil {
@@ -38,6 +44,12 @@ func (s *simpleRun) guarded(desc string, f func()) bool {
 			emit("# %s :: %s", msg, desc)
 			s.dead = true
 			return false
+		}
+		// what one request may allocate is bounded by what it transfers (4 KB files), whatever
+		// count or size it names
+		runtime.ReadMemStats(&m1)
+		if d := m1.TotalAlloc - m0.TotalAlloc; d > memPerRequest {
+			emit("# ORACLE C11 memory-per-request a request allocated %d bytes (bound %d): %s", d, uint64(memPerRequest), trunc(desc))
 		}
 		return true
 	case <-time.After(20 * time.Second):
